@@ -35,7 +35,8 @@ Theorem C16_spec_bounded : forall ops b,
 Proof. exact bq_bounded. Qed.
 Print Assumptions C16_spec_bounded.
 
-(* ---- any number of concurrent producers, one consumer, one closer, EVERY interleaving ----
+(* ---- any number of concurrent producers, Start, one consumer, one closer, EVERY interleaving ----
+   (threads: TStart = Processor.Start, enabled until Close is called; TCons; TClose; TProd i)
    [exec cb_err (init_cfg r work) sched] is the configuration reached from the initial one by an
    arbitrary schedule (list of thread choices; disabled choices are skipped); work = the items each
    producer pushes; cb_err = which callbacks fail. *)
@@ -50,8 +51,8 @@ Theorem C16_all_interleavings : forall cb_err size r work sched,
      and what is queued is the rest (q is the abstract bounded queue the ring represents) *)
   (close_done (closer c) = false ->
      exists q, Live (cring c) q /\ accepted c = executed c ++ inhand (cons c) ++ q) /\
-  (* Close returns only after the consumer has stopped *)
-  (closer c = KDone -> cons c = CStopped) /\
+  (* Close returns only after the consumer has stopped (or was never started: Close before Start returns at once) *)
+  (closer c = KDone -> cons c = CStopped \/ cons c = CNotStarted) /\
   (* a processing error is reported at most once and stops the consumer *)
   (onerror c <= 1 /\ (onerror c = 1 -> cons c = CStopped)).
 Proof.
@@ -106,12 +107,20 @@ Theorem C16_sync_skeleton_matches_model :
 Proof. exact sync_skeleton_matches_model. Qed.
 Print Assumptions C16_sync_skeleton_matches_model.
 
+(* Close before Start: returns without waiting, and nothing ever runs afterwards *)
+Example C16_close_before_start :
+  exists r, rnew 2 = Some r /\
+  let c := exec (fun _ => false) (init_cfg r [[7; 8]])
+    [TProd 0; TProd 0; TProd 0; TProd 0; TClose; TClose; TClose; TClose; TClose; TStart; TCons; TProd 0; TProd 0; TProd 0; TProd 0; TStart; TCons] in
+  closer c = KDone /\ cons c = CNotStarted /\ executed c = [] /\ accepted c = [7; 8].
+Proof. eexists. split; [reflexivity|]. vm_compute. repeat split. Qed.
+
 (* non-vacuity of the concurrent model: 2 producers on a ring of 1, a schedule that pushes, is refused,
    executes, closes and joins *)
 Example C16_conc_example :
   exists r, rnew 1 = Some r /\
   let c := exec (fun _ => false) (init_cfg r [[7]; [8]])
-    [TProd 0; TProd 0; TProd 0; TProd 1; TProd 1; TProd 1; TProd 0;
+    [TStart; TProd 0; TProd 0; TProd 0; TProd 1; TProd 1; TProd 1; TProd 0;
      TCons; TCons; TCons; TCons; TClose; TClose; TClose; TClose; TCons; TCons; TCons; TClose] in
   accepted c = [7] /\ executed c = [7] /\ closer c = KDone /\ cons c = CStopped.
 Proof. eexists. split; [reflexivity|]. vm_compute. repeat split. Qed.
